@@ -64,6 +64,15 @@ def lists(ctx: Ctx):
             b = {"id": rid, "data": [rng.randrange(16)] + ([rng.randrange(256) for _ in range(6)] if rid == TEMP else [])}
             mid = [rand_rec(rng) for _ in range(rng.randrange(3))]
             out.append([a] + mid + [b])
+    # interacting derivations: every ordered pair of the property-style capabilities, and every value combination / order of the three breeze records
+    import itertools
+    PROPS = [0x0009, 0x000A, 0x0018, 0x0039, 0x0042, 0x0043, 0x0048, 0x00E3]
+    for a, b in itertools.permutations(PROPS, 2):
+        out.append([{"id": a, "data": [1]}, {"id": b, "data": [1]}])
+    for vals3 in itertools.product([0, 1], repeat=3):
+        for order in itertools.permutations(range(3)):
+            recs = [{"id": (0x0042, 0x0018, 0x0043)[j], "data": [vals3[j]]} for j in order]
+            out.append(recs)
     # first page decodes to nothing
     out.append([{"id": 0x7777, "data": [1]}, {"id": 0x004B, "data": [1]}, {"id": 0x0001, "data": []}, {"id": 0x0214, "data": [1]},
                 {"id": 0x0212, "data": [1]}])
